@@ -140,6 +140,15 @@ class Ctx:
                     return tuple(self.val(i) for i in x)
                 if k == "iter":
                     return iter(list(x))  # an iterator without len()
+                if k == "sleepfn":
+                    # an awaitable factory for 'wait_for' ("must work multiple times"): each call is recorded
+                    def factory(d=x):
+                        import asyncio
+
+                        self.sim.record("plan", what="awaited", site=None, delay=d)
+                        return asyncio.sleep(d)
+
+                    return factory
                 if k == "devs":
                     return [self.world[n] for n in x]
             return {k: self.val(x) for k, x in v.items()}
